@@ -331,3 +331,23 @@ F("B13b", "C10", EC, "        res[x] = im + j\n", "        res[x] = im + j + 1\n
 F("B13c", "C10", EC, "    for i in range(1, n):\n      res[i] = self.AddJacobian(res[i - 1], base_jac)", "    for i in range(2, n):\n      res[i] = self.AddJacobian(res[i - 1], base_jac)", "R-C10-TABLE", "PointSequence skips index 1")
 F("B13d", "C10", EC, "        if x is None:\n          continue  # key is a duplicate", "        if x is None or j == 0:\n          continue  # key is a duplicate", "R-C10-DUP", "first partner always skipped")
 F("B13e", "C10", EC, "    if not points or len(points) + len(other_points) < 2:\n      return res", "    if not points or len(points) < 2:\n      return res", "R-C10-DUP", "single key never compared with history list")
+
+# ---------------------------------------------------------------------------------- C19
+SR = L + "small_roots.py"
+F("D33", "C19", N, "    a = gmpy.f_mod_2exp(a * (2 - a * n), t)", "    a = gmpy.f_mod_2exp(a * (2 + a * n), t)", "R-C19-HENSEL", "Inverse2exp Newton step sign")
+F("D33b", "C19", N, "    t = min(k, 2 * t)\n", "    t = min(k, 3 * t)\n", "R-C19-HENSEL", "Inverse2exp exponent grows too fast")
+F("D33c", "C19", N, "  a = n % 4\n  t = 2\n", "  a = n % 4\n  t = 4\n", "R-C19-HENSEL", "Inverse2exp claims 4 valid bits at the start")
+F("D34", "C19", N, "    t = min(k, 2 * t - 2)\n", "    t = min(k, 2 * t)\n", "R-C19-HENSEL", "InverseSqrt2exp exponent 2t")
+F("D34b", "C19", N, "    a = gmpy.f_mod_2exp(a * (3 - a * a * n) // 2, t)", "    a = gmpy.f_mod_2exp(a * (3 - a * n) // 2, t)", "R-C19-HENSEL", "InverseSqrt2exp step uses a*n")
+F("D34c", "C19", N, "  if n % 8 != 1:\n    return None\n  a = 1", "  if n % 4 != 1:\n    return None\n  a = 1", "R-C19-HENSEL", "solvability test weakened to n % 4")
+F("D35", "C19", N, "      gmpy.f_mod_2exp((2 ** (k - 1) - r), k),", "      gmpy.f_mod_2exp((2 ** (k - 2) - r), k),", "R-C19-SQRT", "third root uses 2^(k-2)")
+F("D35b", "C19", N, "  r = Inverse2exp(s, k)\n", "  r = Inverse2exp(s, k - 1)\n", "R-C19-SQRT", "root only valid modulo 2^(k-1)")
+F("D36", "C19", N, "  return x, y - d", "  return x, y + d", "R-C19-DIVMOD", "remainder shifted the wrong way")
+F("D36b", "C19", N, "  d = (b + 1) // 2\n", "  d = (b + 1) // 4\n", "R-C19-DIVMOD", "rounding offset quartered")
+F("D37", "C19", SR, "    if y != 0 and n % y == 0:\n      return rx\n  return None", "    if y != 0 and n % y == 0:\n      pass\n    return rx\n  return None", "R-C19-ROOTS", "univariate root returned unverified")
+F("D37b", "C19", SR, "    if int(f(*roots)) % n == 0:\n      return list(roots)", "    if int(f(*roots)) % n == 0 or True:\n      return list(roots)", "R-C19-ROOTS", "modn root always returned")
+F("D37c", "C19", SR, "  y = int(f(*roots))\n  if y != 0 and n % y == 0:\n    return roots", "  y = int(f(*roots))\n  if n % max(y, 1) == 0:\n    return roots", "R-C19-ROOTS", "y = 0 accepted")
+F("D37d", "C19", N, "    r, s = r * q + s, r\n", "    r, s = r * q - s, r\n", "R-C19-CF", "convergent recurrence sign")
+F("D37e", "C19", N, "    a, b = b, rem\n    r, s = r * q + s, r\n    t, u = t * q + u, t\n    res.append((q, r, t))", "    res.append((q, r, t))\n    a, b = b, rem\n    r, s = r * q + s, r\n    t, u = t * q + u, t", "R-C19-CF", "convergent appended before the update")
+T("D37f", "C19", N, "    t = min(k, 2 * t)\n    a = gmpy.f_mod_2exp(a * (2 - a * n), t)", "    t = min(k, 2 * t)\n    a = gmpy.f_mod_2exp(2 * a - a * a * n, t)", "Newton step expanded")
+T("D37g", "C19", N, "    t = min(k, 2 * t - 2)\n", "    t = min(k, 2 * t - 3)\n", "slower exponent growth is still sound")
